@@ -49,7 +49,12 @@ RULE = ('masks: circle (centred/off-centre), hexagon (both orientations, shifted
         'and whole vectors scaled by 1e-12, 1e-9, 1e-6, 1e-3 or 250 (the scale is applied before zernike_compose); both '
         'normalize settings; default and caller-supplied (rho, theta); ops compose (incl. homogeneity compose(1e-9 c) and '
         'the mode-by-mode sum) / fit / remove; OPDs = composed modes (also modes outside the fitted set) + dyadic noise, '
-        'non-zero outside the mask; error cases (mode index < 1, wrong opd size/shape); '
+        'non-zero outside the mask; error cases (mode index < 1, wrong opd size/shape); HISTORIES (about a fifth of the '
+        'small cases + corpus/c12/histories.json): 2-4 fit / remove / compose calls in one process on one mask buffer and '
+        'one mode list, consecutive calls differing in one argument (default <-> two supplied coordinate systems, '
+        'normalize, a copy / a rescaled copy of the mask, the same buffer refilled in place with another support, the '
+        'order of the modes, the function called), every call compared with the model (= the answer of a fresh '
+        'process) and with numpy lstsq on the modes of that call; '
         'non-trivial = at least 2 modes or a non-contiguous set, and the mask does not fill the array')
 
 TOL = 1e-8
@@ -64,6 +69,8 @@ _tier = ['quick']
 
 def model_cost(c):
     """rough estimate (seconds) of the extracted model's run time"""
+    if c['op'] == 'history':
+        return sum(model_cost(sub) for sub in substeps(c))
     if c['op'] == 'compose' or (c.get('expect_error') and c.get('opd_shape') != 'transposed'):
         return 0.1
     k = len(c['modes'])
@@ -174,6 +181,121 @@ def stacked_modes(c, p, modes, nrm):
     return B
 
 
+# ------------------------------------------------------------------ histories of calls in one process
+# A history case is ONE mask buffer and ONE mode list used for 2-4 consecutive calls that differ in one argument at a
+# time (coordinates, normalize, the array object holding the mask, the content of the re-used buffer, the order of the
+# modes).  Every call is compared with the model (which is a pure function: the answer of a fresh process) and with
+# the call's own oracle identities, so state carried from an earlier call into a later one is visible.
+def substeps(c):
+    """the calls of a history as ordinary single-call cases (content of the mask buffer tracked through refills)"""
+    subs = []
+    cur = c['mask']
+    for st in c['steps']:
+        opt = st.get('mask', 'buf')
+        if opt == 'refill2':
+            cur = c['mask2']
+        elif opt == 'refill1':
+            cur = c['mask']
+        content = [[(2 * v if isinstance(v, int) else str(2 * fr(v))) for v in row] for row in cur] if opt == 'scaled' else cur
+        rev = st.get('modes') == 'reversed'
+        sub = {'op': st['call'], 'mask_kind': c.get('mask_kind'), 'mask': content,
+               'modes': list(reversed(c['modes'])) if rev else list(c['modes']),
+               'coeffs': list(reversed(c['coeffs'])) if rev else list(c['coeffs']),
+               'nrm': bool(st.get('nrm', True)), 'ynrm': bool(st.get('nrm', True)) if st['call'] != 'remove' else True}
+        for k in ('mask_dtype', 'scale', 'extra', 'noise'):
+            if c.get(k) is not None:
+                sub[k] = c[k]
+        if st['call'] == 'compose':
+            sub.pop('extra', None)
+            sub.pop('noise', None)
+        if st.get('crd'):
+            sub['crd'] = st['crd']
+        subs.append(sub)
+    return subs
+
+
+def step_label(i, st):
+    return (f"call {i + 1} of the history ({st['call']}, {'supplied' if st.get('crd') else 'default'} coordinates, "
+            f"normalize={st.get('nrm', True) if st['call'] != 'remove' else True}, mask={st.get('mask', 'buf')}, "
+            f"modes {st.get('modes', 'same')})")
+
+
+def run_history(c):
+    lentil = C.import_lentil()
+    subs = substeps(c)
+    buf = mask_np({'mask': c['mask'], 'mask_dtype': c.get('mask_dtype', 'float')}).copy()
+    out = []
+    for st, sub in zip(c['steps'], subs):
+        try:
+            p = prep(sub)
+            opt = st.get('mask', 'buf')
+            if opt == 'refill2':
+                buf[...] = mask_np(dict(sub, mask=c['mask2']))
+                m = buf
+            elif opt == 'refill1':
+                buf[...] = mask_np(dict(sub, mask=c['mask']))
+                m = buf
+            elif opt == 'copy':
+                m = buf.copy()
+            elif opt == 'scaled':
+                m = (buf * 2).astype(buf.dtype)
+            else:
+                m = buf
+            if m.dtype != p['mask'].dtype or m.shape != p['mask'].shape:
+                raise AssertionError('harness: history mask buffer out of step with the case')
+            if not np.array_equal(m, p['mask']):
+                # an earlier call wrote into the caller's buffer (purity is property C10, not C12): restore the content
+                # this call is specified with, in the same array object
+                m[...] = p['mask']
+            rho, theta, nrm = p['rho'], p['theta'], p['nrm']
+            if st['call'] == 'compose':
+                out.append({'arr': np.asarray(lentil.zernike_compose(m, p['w'], nrm, rho, theta), dtype=float)})
+            elif st['call'] == 'fit':
+                out.append({'coeffs': np.asarray(lentil.zernike_fit(p['y'].copy(), m, sub['modes'], nrm, rho, theta), dtype=float)})
+            else:
+                out.append({'arr': np.asarray(lentil.zernike_remove(p['y'].copy(), m, sub['modes'], rho=rho, theta=theta), dtype=float)})
+        except AssertionError:
+            raise
+        except Exception as e:
+            out.append({'err': 'ValueError' if isinstance(e, ValueError) else type(e).__name__})
+    return {'steps': out}
+
+
+def oracle_step(sub, impl):
+    """one call of a history against numpy's own least-squares solution on the modes of THAT call"""
+    if 'err' in impl:
+        return f'zernike_{sub["op"]} raised {impl["err"]} on a well-formed call'
+    lentil = C.import_lentil()
+    p = prep(sub)
+    mask = p['mask']
+    modes = list(sub['modes'])
+    nrm = True if sub['op'] == 'remove' else p['nrm']
+    if sub['op'] == 'compose':
+        w = p['w']
+        Z = [np.asarray(lentil.zernike(mask, j + 1, nrm, p['rho'], p['theta']), dtype=float) for j in range(len(w))]
+        ref = np.zeros(mask.shape)
+        for x, z in zip(w, Z):
+            ref = ref + x * z
+        return close(impl['arr'], ref, sum_scale(w, Z), f'compose({w}) is not sum_j c_j Z_j', TOL_SUM)
+    B = stacked_modes(sub, p, modes, nrm)
+    y = p['y']
+    s = magnitude(sub, p)
+    cref = np.linalg.lstsq(B.T, y.ravel(), rcond=None)[0]
+    if sub['op'] == 'fit':
+        cf = np.asarray(impl['coeffs'])
+        m = close(cf, cref, max(s, float(np.max(np.abs(cref)))), f'zernike_fit(modes={modes}) is not the least-squares solution in this call\'s coordinates')
+        if m:
+            return m
+        if pure(sub) and sub.get('ynrm', True) == nrm:
+            return close_each(cf, coeff_vals(sub), float(np.linalg.cond(B)), f'fit(compose(c), modes={modes}) != c')
+        return None
+    r = np.asarray(impl['arr'])
+    if r.shape != y.shape:
+        return f'residual shape {r.shape} != opd shape {y.shape}'
+    return close(r, y - (cref @ B).reshape(y.shape), s,
+                 f'zernike_remove(modes={modes}) does not subtract the least-squares component in this call\'s coordinates')
+
+
 # ------------------------------------------------------------------ generator
 def gen_mask(rng, size):
     """size: 'tiny' (4..5), 'small' (6..9) or 'large' (10..16)"""
@@ -281,6 +403,66 @@ def well_conditioned(c):
         return False
 
 
+def rnd_crd(rng, n, m):
+    return {'dr': str(Fraction(rng.randint(-4, 4), 4)), 'dc': str(Fraction(rng.randint(-4, 4), 4)),
+            'radius': str(Fraction(rng.randint(9, 12), 16) * max(n, m)),
+            'rot': str(Fraction(rng.randint(-8, 8), 8))}
+
+
+def gen_history(rng, size, kind, mask, modes):
+    """2-4 calls on one mask buffer and one mode list; consecutive calls differ in ONE argument"""
+    n, m = len(mask), len(mask[0])
+    modes = modes[:3]
+    c = {'op': 'history', 'mask_kind': kind, 'mask': mask, 'modes': modes, 'coeffs': rnd_coeffs(rng, len(modes))}
+    if all(isinstance(v, int) for row in mask for v in row):
+        c['mask_dtype'] = rng.choice(['float', 'float', 'int', 'bool', 'uint8', 'int32'])
+    if rng.random() < 0.2:
+        c['scale'] = rng.choice(['1/1000000000', '1/1000000', '250'])
+    if rng.random() < 0.5:
+        c['extra'] = [rnd_frac(rng) if rng.random() < 0.5 else '0' for _ in range(rng.randint(1, 4))]
+    if rng.random() < 0.5:
+        c['noise'] = [[rng.randint(-16, 16) for _ in range(m)] for _ in range(n)]
+    # a second support of the same shape for "the buffer is refilled in place"
+    for _ in range(20):
+        k2, m2 = gen_mask(rng, size)
+        if len(m2) == n and len(m2[0]) == m and m2 != mask and (
+                c.get('mask_dtype', 'float') == 'float' or all(isinstance(v, int) for row in m2 for v in row)):
+            c['mask2'] = m2
+            break
+    crds = [None, rnd_crd(rng, n, m), rnd_crd(rng, n, m)]
+    call = rng.choice(['fit', 'fit', 'remove', 'remove', 'mixed'])
+    cur = {'call': 'fit' if call == 'mixed' else call, 'crd': rng.choice(crds), 'nrm': rng.random() < 0.5, 'mask': 'buf', 'modes': 'same'}
+    steps = [dict(cur)]
+    for _ in range(rng.randint(1, 3)):
+        what = rng.choice(['crd', 'crd', 'crd', 'nrm', 'maskobj', 'refill', 'modes', 'call'])
+        cur = dict(cur)
+        cur['mask'] = 'buf'
+        if what == 'crd':
+            cur['crd'] = rng.choice([x for x in crds if x != cur['crd']])
+        elif what == 'nrm':
+            cur['nrm'] = not cur['nrm']
+            if cur['call'] == 'remove':       # remove has no normalize argument: vary the coordinates instead
+                cur['crd'] = rng.choice([x for x in crds if x != cur['crd']])
+        elif what == 'maskobj':
+            cur['mask'] = rng.choice(['copy', 'scaled'])
+        elif what == 'refill' and c.get('mask2'):
+            refilled = any(s.get('mask') == 'refill2' for s in steps) and not any(s.get('mask') == 'refill1' for s in steps)
+            cur['mask'] = 'refill1' if refilled else 'refill2'
+        elif what == 'modes' and len(modes) > 1:
+            cur['modes'] = 'reversed' if cur['modes'] == 'same' else 'same'
+        else:
+            cur['call'] = rng.choice([x for x in ('fit', 'remove', 'compose') if x != cur['call']])
+        steps.append(dict(cur))
+    for st in steps:
+        if not st['crd']:
+            st.pop('crd')
+    c['steps'] = steps
+    for sub in substeps(c):
+        if sub['op'] != 'compose' and not well_conditioned(sub):
+            return None
+    return c
+
+
 def generate(rng, tier):
     n_cases = 100 if tier == 'quick' else 1500
     _tier[0] = tier
@@ -293,6 +475,16 @@ def generate(rng, tier):
         tiny = size == 'tiny'
         kind, mask = gen_mask(rng, size)
         modes = gen_modes(rng, size, tier)
+        if size != 'large' and rng.random() < 0.22:
+            c = gen_history(rng, size, kind, mask, modes)
+            if c is None:
+                STATS['skipped_ill_conditioned'] += 1
+                continue
+            out += 1
+            STATS['generated'] += 1
+            STATS['histories'] = STATS.get('histories', 0) + 1
+            yield c
+            continue
         op = rng.choice(['compose', 'compose', 'fit', 'fit', 'remove', 'remove'])
         c = {'op': op, 'mask_kind': kind, 'mask': mask, 'modes': modes,
              'coeffs': rnd_coeffs(rng, len(modes))}
@@ -303,9 +495,7 @@ def generate(rng, tier):
             c['nrm'] = rng.random() < 0.5
         if rng.random() < 0.4:
             n, m = len(mask), len(mask[0])
-            c['crd'] = {'dr': str(Fraction(rng.randint(-4, 4), 4)), 'dc': str(Fraction(rng.randint(-4, 4), 4)),
-                        'radius': str(Fraction(rng.randint(9, 12), 16) * max(n, m)),
-                        'rot': str(Fraction(rng.randint(-8, 8), 8))}
+            c['crd'] = rnd_crd(rng, n, m)
         if rng.random() < 0.3:      # the unit of the coefficients: nanometres / picometres in metres, microns, ...
             c['scale'] = rng.choice(['1/1000000000', '1/1000000000', '1/1000000000000', '1/1000000', '1/1000', '250'])
         if op != 'compose':
@@ -337,6 +527,9 @@ def generate(rng, tier):
 
 
 def classify(c):
+    if c['op'] == 'history':
+        return (f"history/{'+'.join(st['call'] for st in c['steps'])}/{c.get('mask_kind', '?')}:{c.get('mask_dtype', 'float')}"
+                + ('/oracle-only' if not c.get('_corpus') and model_cost(c) > MODEL_BUDGET_S[_tier[0]] else ''))
     crd = 'crd' if c.get('crd') else 'default'
     k = len(c['modes'])
     kb = '1' if k == 1 else '2-4' if k <= 4 else '5-9' if k <= 9 else '10-15'
@@ -346,6 +539,8 @@ def classify(c):
 
 def nontrivial(c):
     modes = c['modes']
+    if c['op'] == 'history':
+        return len(c['steps']) >= 2
     if c.get('expect_error'):
         return False
     full = all(fr(v) != 0 for row in c['mask'] for v in row)
@@ -383,6 +578,12 @@ def encode(c):
     if not c.get('_corpus') and model_cost(c) > MODEL_BUDGET_S[_tier[0]]:
         return None
     try:
+        if c['op'] == 'history':
+            out = [4, len(c['steps'])]
+            for sub in substeps(c):
+                e = encode_prepared(sub, prep(sub))
+                out += [len(e)] + e
+            return out
         p = prep(c)
         return encode_prepared(c, p)
     except Exception:
@@ -409,6 +610,15 @@ def encode_prepared(c, p):
 
 def decode(c, ints):
     rd = C.Reader(ints)
+    if c['op'] == 'history':
+        if rd.z() != 0 or rd.z() != len(c['steps']):
+            raise ValueError('malformed history answer from the model')
+        res = []
+        for sub in substeps(c):
+            ln = rd.z()
+            res.append(decode(sub, ints[rd.i:rd.i + ln]))
+            rd.i += ln
+        return {'steps': res}
     st = rd.z()
     if st == 1:
         return {'err': C.ERRNAMES[rd.z()]}
@@ -420,6 +630,8 @@ def decode(c, ints):
 
 # ------------------------------------------------------------------ implementation side
 def run_impl(c):
+    if c['op'] == 'history':
+        return run_history(c)
     lentil = C.import_lentil()
     modes = list(c['modes'])
     try:
@@ -513,6 +725,12 @@ def sum_scale(w, B):
 
 
 def compare(c, impl, model):
+    if c['op'] == 'history':
+        for i, (st, sub, im, mo) in enumerate(zip(c['steps'], substeps(c), impl['steps'], model['steps'])):
+            m = compare(sub, im, mo)
+            if m:
+                return f'{step_label(i, st)}: {m}'
+        return None
     if ('err' in impl) != ('err' in model):
         return f'implementation {impl.get("err", "returned a value")}, model {model.get("err", "returned a value")}'
     if 'err' in impl:
@@ -545,6 +763,12 @@ def pure(c):
 
 
 def oracle(c, impl):
+    if c['op'] == 'history':
+        for i, (st, sub, im) in enumerate(zip(c['steps'], substeps(c), impl['steps'])):
+            m = oracle_step(sub, im)
+            if m:
+                return f'{step_label(i, st)}: {m}'
+        return None
     if c.get('expect_error') or c.get('opd_shape'):
         return None          # the property does not speak about malformed calls; the tie compares the error kinds
     if 'err' in impl:
